@@ -29,7 +29,7 @@ MANIFEST = {
                  'analyze_trajectory, ShapeData.distances; z3; finite-scope counter-models replayed natively; brute-force oracle over offline '
                  'space groups as stand-in',
 }
-UNITS = ['unit_find', 'unit_fold', 'unit_iso_lemmas']
+UNITS = ['unit_find', 'unit_fold', 'unit_iso_lemmas', 'unit_plumbing']
 BOUNDED = ['bounded_shape', 'bounded_purity']
 META = {'clauses': {'C17.count': 'P', 'C17.reimage': 'P', 'C17.iso': 'A (SymmOp isometry) + P (lemma: |component|<=1/2 and congruent => same minimum-image class)', 'C17.fold': 'P'},
         'not_decided': ['space-group operation lists and their compatibility with the lattice (pymatgen data)', 'L-perp is assumed mathematics here (not re-proved)']}
@@ -442,3 +442,11 @@ from verif.native.purity import make_bounded as _make_purity  # noqa: E402
 from verif.props.purity_reg import REG as _PURITY_REG  # noqa: E402
 PURITY = _PURITY_REG['C17']
 bounded_purity = _make_purity('C17', PURITY)
+
+
+# plumbing around the anchored functions: forwarding contracts of the public wrappers, no state shared between calls or objects
+from verif.props import plumbing as _plumbing  # noqa: E402
+
+
+def unit_plumbing(tier):
+    return _plumbing.unit_plumbing(PROPERTY)
